@@ -434,10 +434,11 @@ def replay_candidate(rep, crate_dir, cand, harness_timeout, stubbing, extra_lib,
             continue
         if "reproduced" in verdicts.values():
             return True, d, "reproduced: %s" % verdicts
-        if ub:
-            rc, out = RP.run_miri(d, release=False)
-            if "Undefined Behavior" in out:
-                return True, d, "reproduced under miri: %s" % verdicts
+        # last resort: the solver's counterexample may rest on indeterminate (uninitialised)
+        # memory, which a native run resolves to one arbitrary value; miri decides that
+        rc, out = RP.run_miri(d, release=False)
+        if "Undefined Behavior" in out:
+            return True, d, "not reproduced natively, but miri reports undefined behaviour on this input: %s" % verdicts
         why.append(str(verdicts))
     return False, rdir, "counterexample did not reproduce natively: %s" % "; ".join(why)
 
